@@ -40,3 +40,9 @@ seq_check('C44', 'c44_bitmath',
           'Every v in [0,2^32) through log2 (32/64-bit), countTrailingZeros, countSetBits, nextPow2, alignToCacheLine; log2const on every v < 2^26 plus the structured set (all 2^32 in thorough); a structured 64-bit set (every value with <=3 set bits, every 2^k+d with |d|<=3, structured 32-bit values at every shift; thorough adds all v<<s for v in [2^31,2^32)); alignedMalloc/alignedFree for every power-of-two alignment 1..2^16 x sizes {0,1,63,64,65,4097} x heap phases. Documented domains respected (nextPow2 up to 2^63, log2/ctz on non-zero values).',
           'the 64-bit domain is covered by a structured subset, not exhaustively (exhaustive:false is reported for that part)',
           quick_budget=200, thorough_budget=1500)
+
+seq_check('C32', 'c32_concurrent_vector',
+          'bounded-exhaustive enumeration of ConcurrentVector operation histories (pairs of vectors) against std::vector on all 24 trait/capacity combinations, with lifetime tracking',
+          'BFS over histories of <=3 operations (thorough: a second pass to depth 4 on a reduced argument set) on two vectors v,w over the whole sequential API (all constructors, assign variants, push/emplace, the grow_by family, grow_to_at_least, insert variants incl. an aliasing value, erase(pos), erase(first,last), resize, reserve, pop_back, clear, shrink_to_fit, copy/move assignment, swap, comparisons, forward/reverse/const iteration, indexing/at/front/back) with arguments around the bucket boundaries, on 24 configurations (kDefaultCapacity 2 and 4 x buffers inline x iterator kind x 3 realloc strategies), element type Tracked<int>. Oracle: contents, size and returned positions equal std::vector after every step; nothing constructed over a live object, nothing destroyed twice, live objects == elements after every step, nothing live after destruction.',
+          'single-threaded; capacity() equality is not required; sanitizer aborts and hangs are turned into violations with a replay',
+          quick_budget=240, thorough_budget=1500)
